@@ -313,7 +313,18 @@ def c17(run):
                                      "float64-typed optional fields are compared as their JSON text (identity oracle)", "RFC 3394 / AES written in TLA+ (published vectors re-checked each run)"])
 
 
-PROPS = {"C01": c01, "C17": c17, "C18": c18, "C19": c19, "C20": c20, "C11": c11, "C14": c14, "C15": c15, "C12": c12, "C13": c13, "C05": c05, "C02": c02, "C03": c03, "C04": c04, "C06": c06, "C07": c07, "C08": c08}
+def c16(run):
+    run.selftest()
+    run.design_check("JoinProcModel", workers=8)
+    t = run.record("join", "requests", n=T(run, 240, 6000))
+    run.validate("join", t, "Trace_join", label="(V) join/rejoin requests through the real http.Handler, sequential and concurrent batches", chunk=T(run, 15, 100))
+    run.require_kinds("join/joinsrv")
+    run.rc = run.finish(assumptions=["independent device / NS / AS model spec/lorawan/JoinProc.tla with AES, AES-CMAC and RFC 3394 in TLA+",
+                                     "CFLists in requests are spec-valid (mask type: RFU bytes zero); rejoin-requests with OptNeg clear and rejoin-requests with a wrong MIC are DON'T-CARE beyond the result code",
+                                     "the KEK label of the NS is the request's SenderID"])
+
+
+PROPS = {"C01": c01, "C16": c16, "C17": c17, "C18": c18, "C19": c19, "C20": c20, "C11": c11, "C14": c14, "C15": c15, "C12": c12, "C13": c13, "C05": c05, "C02": c02, "C03": c03, "C04": c04, "C06": c06, "C07": c07, "C08": c08}
 
 
 def replay(run, path):
